@@ -138,6 +138,8 @@ func LoadAndVerifySeq(b []byte, roles []string, keyrings []openpgp.EntityList) [
 // Class: outcome class in which error texts do not take part.
 func (o Outcome) Class() string {
 	switch {
+	case o.Hang != "":
+		return "NO-TERMINATION"
 	case o.Panic != "":
 		return "load-panic"
 	case !o.Loaded:
@@ -231,6 +233,9 @@ func features(in In) []string {
 	}
 	if in.Kind == "rename" {
 		f = append(f, "member-renamed")
+	}
+	if in.Kind == "swap" {
+		f = append(f, "member-replaced-original-kept-under-other-name")
 	}
 	for _, s := range in.Sigs {
 		if s.Role == in.Ask && !has(in.KeyringNames, s.SignerName) {
@@ -364,7 +369,14 @@ func Check(scen string, in In) ([]*mc.Violation, []Outcome) {
 			return
 		}
 		o := LoadAndVerify(in.Deb, in.Ask, keyring)
+		if o.Skipped {
+			return // an earlier execution of this process did not terminate: nothing more is executed
+		}
 		outs = append(outs, o)
+		if o.Hang != "" {
+			stopped = true
+			return
+		}
 		if in.Orders && len(judge(scen, in, o, fps)) > 0 {
 			stopped = true
 		}
@@ -378,6 +390,10 @@ func Check(scen string, in In) ([]*mc.Violation, []Outcome) {
 	seenClass := map[string]bool{}
 	best := map[string]*mc.Violation{}
 	for _, o := range outs {
+		if o.Hang != "" {
+			best["load-and-verification-return"] = mc.V(scen, "load-and-verification-return", in, "Load and CheckDebsig return (with or without an error)", o.Hang, features(in)...)
+			continue
+		}
 		c := o.Class()
 		if seenClass[c] {
 			continue
@@ -425,6 +441,12 @@ func checkSeq(scen string, in In) ([]*mc.Violation, []Outcome) {
 		}
 	}
 	outs := LoadAndVerifySeq(in.Deb, roles, krs)
+	if len(outs) > 0 && outs[0].Skipped {
+		return nil, nil
+	}
+	if len(outs) > 0 && outs[0].Hang != "" {
+		return []*mc.Violation{mc.V(scen, "load-and-verification-return", in, "Load and every CheckDebsig call return", outs[0].Hang, "call-sequence")}, outs
+	}
 	best := map[string]*mc.Violation{}
 	history := ""
 	for i, c := range in.Calls {
